@@ -19,6 +19,7 @@
 //!     //@replace `old` => `new` rule=RX why=`..` [all]
 //!     //@ctxe `receiver text`          (receiver of .context() that is an Error, not a Result)
 //!     //@lsubst a::B => C              (substitution local to this fn)
+//!     //@split-arms                    (emit one copy of the fn per leaf match/select arm; see DESIGN §3 R16)
 //!   //@end
 use std::collections::BTreeSet;
 
@@ -82,7 +83,10 @@ pub struct FnSpec {
     pub replaces: Vec<Replace>,
     pub error_context_receivers: Vec<String>,
     pub subst: Vec<(Vec<String>, String)>,
+    pub split_arms: bool,
+    pub attrs: Vec<String>,
     // filled in by the extractor
+    pub kill_arms: BTreeSet<usize>,
     pub closure_spans: Vec<(usize, (usize, usize))>,
     pub pin_idents: BTreeSet<String>,
 }
@@ -366,6 +370,8 @@ pub fn parse_spec(text: &str, prelude_dir: &str) -> Result<Unit, String> {
                         let why = kv(&ws, "why").unwrap_or("").to_string();
                         f.replaces.push(Replace { old, new: if new == "<empty>" { String::new() } else { new }, rule, why, all: flag(&ws, "all") });
                     }
+                    "split-arms" => f.split_arms = true,
+                    "attr" => f.attrs.push(d.trim_start()["attr".len()..].trim().to_string()),
                     "ctxe" => f.error_context_receivers.push(ws.get(1).cloned().ok_or_else(|| err("receiver"))?),
                     "lsubst" => {
                         let rest = d.trim_start()["lsubst".len()..].trim();
